@@ -309,6 +309,45 @@ theorem tlookup_buildUmap (es : List TuEntry) (code : Int) (h : nbspClash (tuDef
   rw [tlookup_foldl_addCid (tuDefs es) [] code (by intro d _ _; simp [tlookup_nil]) (noClash_of_nbspClash h)]
   cases tuText (tuDefs es) code <;> simp [tlookup_nil]
 
+/-! ### Differences arrays as runs -/
+
+theorem assignments_names (names : List (Option Name)) : ∀ (cur : Int) (rest : List DiffTok),
+    assignments cur (names.map DiffTok.name ++ rest) =
+      numberFrom cur names ++ assignments (cur + names.length) rest := by
+  induction names with
+  | nil => intro cur rest; simp [numberFrom]
+  | cons n ns ih =>
+    intro cur rest
+    simp only [List.map_cons, List.cons_append, assignments, numberFrom, ih, List.length_cons]
+    have : cur + 1 + (ns.length : Int) = cur + ((ns.length + 1 : Nat) : Int) := by omega
+    rw [this]
+
+theorem assignments_runs (runs : List (Int × List (Option Name))) : ∀ (cur : Int),
+    assignments cur (diffOfRuns runs) = runs.flatMap (fun r => numberFrom r.1 r.2) := by
+  induction runs with
+  | nil => intro cur; rfl
+  | cons r rs ih =>
+    intro cur
+    have e : diffOfRuns (r :: rs) = DiffTok.num r.1 :: (r.2.map DiffTok.name ++ diffOfRuns rs) := by
+      simp [diffOfRuns]
+    rw [e]
+    simp only [assignments, assignments_names, List.flatMap_cons]
+    rw [ih]
+
+/-- The i-th name of a run that starts at `first` gets the code `first + i` - for every i (no wrap at 255). -/
+theorem numberFrom_getElem (names : List (Option Name)) : ∀ (first : Int) (i : Nat),
+    (numberFrom first names)[i]? = (names[i]?).map (fun nm => (first + i, nm)) := by
+  induction names with
+  | nil => intro first i; simp [numberFrom]
+  | cons n ns ih =>
+    intro first i
+    cases i with
+    | zero => simp [numberFrom]
+    | succ j =>
+      simp only [numberFrom, List.getElem?_cons_succ, ih]
+      have : first + 1 + (j : Int) = first + ((j + 1 : Nat) : Int) := by omega
+      rw [this]
+
 /-! ### the exact space / no-break-space rule -/
 
 /-- One definition of a code on top of the value in effect. -/
